@@ -35,6 +35,15 @@ const LINKS_SIZE: usize = std::mem::size_of::<Links>();
 /// Maximum node size (with full tower)
 const MAX_NODE_SIZE: usize = std::mem::size_of::<Node>() + (MAX_HEIGHT - 1) * LINKS_SIZE;
 
+/// Arena bytes an entry needs at the very least (a node of height 1 plus its
+/// key and value bytes).
+pub(crate) fn min_entry_size(key_len: usize, value_len: usize) -> usize {
+	std::mem::size_of::<Node>() + key_len + value_len
+}
+
+/// Arena bytes taken by the head and tail sentinels of every skiplist.
+pub(crate) const SENTINEL_SIZE: usize = 2 * MAX_NODE_SIZE;
+
 /// Precomputed probabilities for random height generation
 fn probabilities() -> &'static [u32; MAX_HEIGHT] {
 	static PROBABILITIES: std::sync::OnceLock<[u32; MAX_HEIGHT]> = std::sync::OnceLock::new();
